@@ -280,6 +280,8 @@ def evaluate(world, drv, plan=None, model_faults=None, oracles=("C01", "C04", "C
         if roots:
             res["oracle"]["C08"] = drv.ask(dict(base, prop="C08", roots=roots, mentions=False))
             res["tags"].append("c08:insecure-top-present")
+    res["after_state"] = snap_to_state(obs["after"])
+    res["before_state"] = snap_to_state(obs["before"])
     res["stderr"] = obs["stderr"]
     res["trace"] = obs["trace"]
     res["brows"], res["arows"] = brows, arows
